@@ -1136,6 +1136,10 @@ func (vc *FnVC) doBuiltin(res ssa.Value, b *ssa.Builtin, c *ssa.CallCommon, st *
 		vc.setComp(st, "ML", ite(eq(m, "0"), ml, sto(ml, m, ite(has, "(- "+sel(ml, m)+" 1)", sel(ml, m)))))
 		cur := vc.cur(st, mh)
 		vc.setComp(st, mh, ite(eq(m, "0"), cur, sto(cur, m, sto(sel(cur, m), k, "false"))))
+		// cardinality (Go semantics, not derivable from the counter alone): a map that still
+		// has a key after the deletion is not empty
+		ks := vc.enc.sortOf(mt.Key())
+		vc.assume("(forall ((q$k " + ks + ")) (! (=> (select (select " + vc.cur(st, mh) + " " + m + ") q$k) (> (select " + vc.cur(st, "ML") + " " + m + ") 0)) :pattern ((select (select " + vc.cur(st, mh) + " " + m + ") q$k))))")
 	case "copy":
 		panic(unsupported("builtin copy"))
 	case "print", "println":
